@@ -13,7 +13,7 @@ from harness import coqeval  # noqa: E402
 from quri_parts.core.operator import Operator, PauliLabel, pauli_product  # noqa: E402
 
 PN = {1: "PX", 2: "PY", 3: "PZ"}
-IMPORTS = ("From Coq Require Import ZArith List.\nFrom QP Require Import Zw.\nFrom QPM Require Import Pauli Operator OperatorExt.\n"
+IMPORTS = ("From Coq Require Import ZArith List.\nFrom QP Require Import Zw.\nFrom QPM Require Import Pauli Operator OperatorExt OperatorAdj.\n"
            "From QPG Require Import conjtab.\nOpen Scope Z_scope.")
 DEFS = """
 Definition zdec (x y : Zw) : {x = y} + {x <> y}.
@@ -26,6 +26,7 @@ Definition zm1 : Zw := zw_opp zw1.
 Definition zisub := isub Zw zw0 zw_add zw_mul zdec zm1.
 Definition zcomm := commutator Zw zw0 zw_add zw_mul zdec zm1 pauli_products_map (fun z => z).
 Definition zidiv := idiv Zw zw_mul.
+Definition zdag := odag Zw zw_conj.
 Definition enc_p (p : pauli) : Z := match p with PX => 1 | PY => 2 | PZ => 3 end.
 Definition enc_l (l : label) : list Z := Z.of_nat (length l) :: flat_map (fun ip => [Z.of_nat (fst ip); enc_p (snd ip)]) l.
 Definition enc (o : op Zw) : list Z := flat_map (fun lc => enc_l (fst lc) ++ [za (snd lc); zc (snd lc); zb (snd lc); zd (snd lc)]) o.
@@ -76,13 +77,13 @@ def main():
     a = O.std_args().parse_args()
     rng = random.Random(a.seed * 2654435 + 19)
     res = O.Result("random add_term histories (<= 12 steps, colliding labels so that coefficients cancel), operator "
-                   "sums, differences, commutators, quotients by units and products (<= 5 x 5 terms), pauli_product on overlapping labels; Gaussian-integer "
+                   "sums, differences, commutators, Hermitian conjugates, quotients by units and products (<= 5 x 5 terms), pauli_product on overlapping labels; Gaussian-integer "
                    "coefficients; distinct = input")
     n_cases = 120 if a.tier == "quick" else 1500
     terms, expect, infos = [], [], []
     for _ in range(n_cases):
         idxs = rng.sample(range(8), rng.randint(1, 4))
-        kind = rng.choice(["history", "history", "sum", "product", "pprod", "difference", "commutator", "quotient"])
+        kind = rng.choice(["history", "history", "sum", "product", "pprod", "difference", "commutator", "quotient", "dagger"])
         if kind == "history":
             steps = [(rand_label(rng, idxs), rand_coef(rng)) for _ in range(rng.randint(1, 12))]
             op = Operator()
@@ -94,7 +95,7 @@ def main():
             terms.append(f"enc {t}")
             expect.append(("op", real_to_dict(op)))
             infos.append({"kind": kind, "steps": steps})
-        elif kind in ("sum", "product", "difference", "commutator", "quotient"):
+        elif kind in ("sum", "product", "difference", "commutator", "quotient", "dagger"):
             def build():
                 d = {}
                 for _ in range(rng.randint(0, 5)):
@@ -115,6 +116,9 @@ def main():
                     r = oa.copy()
                     r -= ob
                 terms.append(f"enc (zisub {coq_op(A)} {coq_op(B)})")
+            elif kind == "dagger":
+                r = oa.hermitian_conjugated()
+                terms.append(f"enc (zdag {coq_op(A)})")
             elif kind == "commutator":
                 from quri_parts.core.operator import commutator
                 r = commutator(oa, ob)
